@@ -522,8 +522,18 @@ func persistedFields(c *Ctx, rule, typ string, transient map[string]string) {
 	nt := c.named(typ)
 	st := nt.Underlying().(*types.Struct)
 	c.floor(rule, st.NumFields())
+	// encoding/json silently drops every field whose name is claimed twice at the same depth
+	jsonNames := map[string]int{}
+	for i := 0; i < st.NumFields(); i++ {
+		if name := strings.Split(reflect.StructTag(st.Tag(i)).Get("json"), ",")[0]; name != "" && name != "-" {
+			jsonNames[name]++
+		}
+	}
 	for i := 0; i < st.NumFields(); i++ {
 		f := st.Field(i)
+		if n := jsonNames[strings.Split(reflect.StructTag(st.Tag(i)).Get("json"), ",")[0]]; n > 1 {
+			c.ob(rule, typ+"."+f.Name()+"/json-name-unique", f.Pos(), false, true, "two fields of "+typ+" carry the same json name: encoding/json then saves and restores neither of them")
+		}
 		if reason, ok := transient[f.Name()]; ok {
 			c.ob(rule, typ+"."+f.Name()+"/transient", f.Pos(), true, false, "not persisted by design: "+reason)
 			continue
